@@ -19,6 +19,9 @@ def base_cases(tier, rng, both_modes=True, tol_only=False, strict_only=False, n_
     for s in gen.exhaustive(gen.ATOMS_E, 3):
         for tol in modes:
             yield {'tol': tol, 'ctx': gen.CONTEXTS['E'], 's': s}
+    for s in gen.exhaustive(gen.ATOMS_G, 3):
+        for tol in modes:
+            yield {'tol': tol, 'ctx': gen.CONTEXTS['G'], 's': s}
     if True in modes:
         for s in gen.exhaustive(gen.ATOMS_F, 3):
             yield {'tol': True, 'ctx': gen.CONTEXTS['F'], 's': s}
